@@ -86,8 +86,26 @@ Nest(l, mode) ==
             <<"Q", TypeDef(<<Member("a", "uint8"), Member("b", "string"), Member("rs", "R[]")>>)>>,
             <<"R", TypeDef(<<Member("a", "uint8"), Member("b", "string")>>)>> >>, "P", NameOnlyDomain,
           NObj(leaf(0) \o << <<"q", NObj(leaf(1) \o << <<"rs", NArr(<<NObj(leaf(2))>>)>> >>)>> >>))
-NNest == 9
-NestAt(j) == TItem("members", Nest((j - 1) % 3, (j - 1) \div 3))
+\* mode 3..: an undeclared member whose VALUE is null / false / 0 / "" / [] / {} (nothing to encode, still undeclared)
+ExtraVals == <<NNull, NBool(FALSE), NNum("0"), NStr(""), NArr(<<>>), NObj(<<>>)>>
+NestX(l, x) ==
+  LET leaf(at) == IF at # l THEN << <<"a", NNum("1")>>, <<"b", NStr("x")>> >>
+                  ELSE << <<"a", NNum("1")>>, <<"b", NStr("x")>>, <<"zz", ExtraVals[x]>> >>
+  IN  Doc(<<NameOnlyDomainType,
+            <<"P", TypeDef(<<Member("a", "uint8"), Member("b", "string"), Member("q", "Q")>>)>>,
+            <<"Q", TypeDef(<<Member("a", "uint8"), Member("b", "string"), Member("rs", "R[]")>>)>>,
+            <<"R", TypeDef(<<Member("a", "uint8"), Member("b", "string")>>)>> >>, "P", NameOnlyDomain,
+          NObj(leaf(0) \o << <<"q", NObj(leaf(1) \o << <<"rs", NArr(<<NObj(leaf(2))>>)>> >>)>> >>))
+\* an undeclared null member in the domain object; a declared member given as null
+DomainExtra == Doc(<<NameOnlyDomainType, <<"P", TypeDef(<<Member("a", "uint8")>>)>> >>, "P",
+                   NObj(<< <<"name", NStr("hdwallet verif")>>, <<"salt", NNull>> >>), NObj(<< <<"a", NNum("1")>> >>))
+DeclaredNull == Doc(<<NameOnlyDomainType, <<"P", TypeDef(<<Member("a", "uint8"), Member("s", "string")>>)>> >>, "P", NameOnlyDomain,
+                    NObj(<< <<"a", NNum("1")>>, <<"s", NNull>> >>))
+NNest == 9 + 3 * Len(ExtraVals) + 2
+NestAt(j) ==
+  IF j <= 9 THEN TItem("members", Nest((j - 1) % 3, (j - 1) \div 3))
+  ELSE IF j <= 9 + 3 * Len(ExtraVals) THEN TItem("members_extra", NestX((j - 10) % 3, 1 + ((j - 10) \div 3)))
+  ELSE TItem("members_extra", IF j = NNest THEN DeclaredNull ELSE DomainExtra)
 UndefDocs == <<
   \* undefined struct referenced directly by a value, through an array with / without elements, as primary type
   Doc(<<NameOnlyDomainType, <<"P", TypeDef(<<Member("f", "Ghost")>>)>> >>, "P", NameOnlyDomain, NObj(<< <<"f", NObj(<<>>)>> >>)),
